@@ -744,3 +744,85 @@ func R6Completion(c *Ctx) {
 		}
 	}
 }
+
+// R6DeferredCapture — a callback handed to later execution does not read request variables that the loop rewrites.
+func R6DeferredCapture(c *Ctx) {
+	const rule = "R6-deferred-capture"
+	c.R.Rule(rule, "in the agent-facing request handling (functions reachable from the listener entry points inside handlers and agent), a function literal created inside a loop and not called on the spot (stored, appended, deferred, started with go) does not read a variable that is declared outside that loop and assigned inside it: all such closures would see the value of the last round — request id and command of the last package gate every earlier package", 0)
+	scope := c.ScopeFrom(c.AgentFacingRoots())
+	n := 0
+	for _, fn := range scope {
+		if len(fn.AnonFuncs) == 0 {
+			continue
+		}
+		loops := naturalLoops(fn)
+		for _, b := range fn.Blocks {
+			for _, in := range b.Instrs {
+				mc, ok := in.(*ssa.MakeClosure)
+				if !ok {
+					continue
+				}
+				var l *natLoop
+				for _, cand := range loops {
+					if cand.body[b] && (l == nil || len(cand.body) > len(l.body)) {
+						l = cand // outermost loop around the literal
+					}
+				}
+				if l == nil {
+					continue
+				}
+				// called on the spot only?
+				deferred := false
+				for _, r := range *mc.Referrers() {
+					switch u := r.(type) {
+					case *ssa.Call:
+						if u.Call.Value != ssa.Value(mc) {
+							deferred = true // passed as an argument
+						}
+					case *ssa.DebugRef:
+					default:
+						deferred = true
+					}
+				}
+				if !deferred {
+					continue
+				}
+				n++
+				lit := mc.Fn.(*ssa.Function)
+				var stale []string
+				for i, bd := range mc.Bindings {
+					al, ok := bd.(*ssa.Alloc)
+					if !ok || l.body[al.Block()] {
+						continue // a per-round variable
+					}
+					assignedInLoop := false
+					for _, r := range *al.Referrers() {
+						if st, ok := r.(*ssa.Store); ok && st.Addr == ssa.Value(al) && l.body[st.Block()] {
+							assignedInLoop = true
+						}
+					}
+					if !assignedInLoop || i >= len(lit.FreeVars) {
+						continue
+					}
+					reads := false
+					for _, r := range *lit.FreeVars[i].Referrers() {
+						if u, ok := r.(*ssa.UnOp); ok && u.Op == token.MUL {
+							reads = true
+						}
+					}
+					if reads {
+						stale = append(stale, lit.FreeVars[i].Name())
+					}
+				}
+				construct := "function literal kept for later inside a loop"
+				if len(stale) == 0 {
+					c.R.Ok(rule, FuncShort(fn), construct, c.pos(mc.Pos()), "it reads no variable that later rounds overwrite", true)
+				} else {
+					sort.Strings(stale)
+					c.R.Bad(rule, FuncShort(fn), construct, c.pos(mc.Pos()), "the literal runs after the loop moved on but reads "+strings.Join(stale, ", ")+", declared outside the loop and assigned in every round: every deferred call sees the last round's values")
+				}
+			}
+		}
+	}
+	c.R.Extra["R6-deferred-capture.literals"] = n
+}
